@@ -11,6 +11,7 @@ Section P.
     r_exit (plan_report hash stamp ch inp f auto eng) =
     match inp with
     | Missing | NotAFile | EmptyInput => E1
+    | Undecodable => E2
     | Content b => match eng b with
                    | EngineFailed => E2
                    | EngineOk files => match pick_auto auto f files with Some _ => E0 | None => E2 end
